@@ -59,7 +59,9 @@ def estimator(eng):
     gauss2d = Obj("QuadScheme2D", {"__module__": "src.quadrature", "points": Vec([named_array("g2_px", z3.Int("n2")), named_array("g2_py", z3.Int("n2"))]),
                                    "weights": named_array("g2_w", z3.Int("n2"))})
     slo = Obj("Slobodeckij", {"__module__": NORMS})
-    o = Obj("ErrorEstimator", {"__module__": EE, "gamma_len": L, "gauss": gauss, "gauss_2d": gauss2d, "slobodeckij": slo}, label="EE")
+    o = Obj("ErrorEstimator", {"__module__": EE, "gamma_len": L, "gauss": gauss, "gauss_2d": gauss2d, "slobodeckij": slo,
+                               "__lazy_state__": True}, label="EE")
+    eng.ghost["computed_here"] = []
     eng.assume(z3.And(L > 0, n >= 1))
     eng.externals["GAMMA_LEN"] = L
     return o
@@ -117,7 +119,7 @@ def sc_integrate_h_1_2(eng):
 
 
 contracts.append(Contract(
-    EE + ":ErrorEstimator.__integrate_h_1_2", props=["C09"], setup=sc_integrate_h_1_2,
+    EE + ":ErrorEstimator.__integrate_h_1_2", props=["C09"], setup=sc_integrate_h_1_2, result_term=lambda e, env: h12_term(e, env),
     requires=[("time-interval", "t_a < t_b"),
               ("union-is-a-connected-arc[left then right, through the seam on a closed curve]",
                "Or(elem_right is None, connected(elem_left, elem_right, self.gamma_len))")],
@@ -173,17 +175,48 @@ def sc_sobolev(eng):
 
 
 contracts.append(Contract(MESH + ":Edge.neighbour_elements", prop="C10", result=nbrs_result))
+H14 = z3.Function("H14", R, R, R, R, I, R)
+H12 = z3.Function("H12", R, R, I, I, R)
+
+
+def h14_term(eng, env):
+    t = H14(*[to_real(env.lookup(n)) for n in ("t_a", "t_b", "x_a", "x_b")], env.lookup("gamma").term)
+    eng.ghost["computed_here"].append(t)
+    return t
+
+
+def h12_term(eng, env):
+    l, r = env.lookup("elem_left"), env.lookup("elem_right")
+    t = H12(to_real(env.lookup("t_a")), to_real(env.lookup("t_b")), l.fields["glob_idx"], r.fields["glob_idx"] if r is not None else z3.IntVal(-1))
+    eng.ghost["computed_here"].append(t)
+    return t
+
+
+def s_values_computed_in_this_call(eng, result):
+    """every patch value returned was computed by this call from this call's residual (no value from an earlier call)"""
+    total, ips = result
+    here = eng.ghost["computed_here"]
+    vals = [v for _, v in eng.iter_concrete(ips)]
+    ok = all(any(z3.is_expr(v) and v.eq(h) for h in here) for v in vals)
+    if not ok:
+        return False
+    s = z3.RealVal(0)
+    for v in vals:
+        s = s + v
+    return to_real(total) == s
+
+
 contracts.append(Contract(
-    EE + ":ErrorEstimator.__integrate_h_1_4", prop="C09",
+    EE + ":ErrorEstimator.__integrate_h_1_4", prop="C09", result_term=h14_term,
     requires=[("time-union", "t_a < t_b"), ("space-intersection-non-empty", "x_a < x_b"),
               ("inside-the-piece", "arc_in_piece(gamma, x_a, x_b)")]))
 
 contracts.append(Contract(
     EE + ":ErrorEstimator.sobolev_space", props=["C09"], setup=sc_sobolev,
-    ensures=[("at-least-the-element-itself", "len(result[1]) >= 0")]))
+    ensures=[("indicator == sum of the patch seminorms computed by this call for this residual", "values_computed_in_this_call(result)")]))
 contracts.append(Contract(
     EE + ":ErrorEstimator.sobolev_time", props=["C09"], setup=sc_sobolev,
-    ensures=[("at-least-the-element-itself", "len(result[1]) >= 0")]))
+    ensures=[("indicator == sum of the patch seminorms computed by this call for this residual", "values_computed_in_this_call(result)")]))
 
 
 # weighted L2 --------------------------------------------------------------------------------
@@ -234,6 +267,7 @@ def s_vec_eq(eng, u, v):
 
 
 def install(eng):
+    eng.spec_funcs["values_computed_in_this_call"] = s_values_computed_in_this_call
     eng.spec_funcs["connected"] = s_connected
     eng.spec_funcs["arc_in_piece"] = s_arc_in_piece
     eng.spec_funcs["vec_eq"] = s_vec_eq
